@@ -3,6 +3,16 @@
 use crate::script::*;
 use sea_query::*;
 use serde_json::{json, Value as J};
+use std::cell::RefCell;
+
+thread_local! {
+    /// outcomes of fallible builder calls (InsertStatement::values / select_from) in call order
+    pub static LOG: RefCell<Vec<J>> = RefCell::new(Vec::new());
+}
+
+fn log(j: J) {
+    LOG.with(|l| l.borrow_mut().push(j));
+}
 
 pub fn tableref(j: &J) -> TableRef {
     let a = j.as_array().unwrap();
@@ -13,7 +23,20 @@ pub fn tableref(j: &J) -> TableRef {
         "ta" => TableRef::TableAlias(iden(&a[1]), iden(&a[2])),
         "sta" => TableRef::SchemaTableAlias(iden(&a[1]), iden(&a[2]), iden(&a[3])),
         "subq" => TableRef::SubQuery(select(&a[1]), iden(&a[2])),
+        "vals" => TableRef::ValuesList(a[1].as_array().unwrap().iter().map(value_tuple).collect(), iden(&a[2])),
+        "fn" => TableRef::FunctionCall(crate::script::func_call(a[1].as_str().unwrap(), &a[2]), iden(&a[3])),
         k => panic!("tableref {k}"),
+    }
+}
+
+pub fn value_tuple(j: &J) -> ValueTuple {
+    let vs = values(j);
+    let mut it = vs.into_iter();
+    match it.len() {
+        1 => ValueTuple::One(it.next().unwrap()),
+        2 => ValueTuple::Two(it.next().unwrap(), it.next().unwrap()),
+        3 => ValueTuple::Three(it.next().unwrap(), it.next().unwrap(), it.next().unwrap()),
+        _ => ValueTuple::Many(it.collect()),
     }
 }
 
@@ -55,8 +78,65 @@ fn nulls(j: &J) -> NullOrdering {
     }
 }
 
+fn lock_type(j: &J) -> LockType {
+    match j.as_str().unwrap() {
+        "Update" => LockType::Update,
+        "NoKeyUpdate" => LockType::NoKeyUpdate,
+        "Share" => LockType::Share,
+        "KeyShare" => LockType::KeyShare,
+        x => panic!("lock type {x}"),
+    }
+}
+
+fn lock_behavior(j: &J) -> LockBehavior {
+    match j.as_str().unwrap() {
+        "Nowait" => LockBehavior::Nowait,
+        "SkipLocked" => LockBehavior::SkipLocked,
+        x => panic!("lock behavior {x}"),
+    }
+}
+
 pub fn values(j: &J) -> Vec<Value> {
     j.as_array().unwrap().iter().map(value).collect()
+}
+
+fn idens(j: &J) -> Vec<DynIden> {
+    j.as_array().unwrap().iter().map(iden).collect()
+}
+
+fn frame(j: &J) -> Frame {
+    if let Some(s) = j.as_str() {
+        return match s {
+            "UnboundedPreceding" => Frame::UnboundedPreceding,
+            "CurrentRow" => Frame::CurrentRow,
+            "UnboundedFollowing" => Frame::UnboundedFollowing,
+            x => panic!("frame {x}"),
+        };
+    }
+    let a = j.as_array().unwrap();
+    match a[0].as_str().unwrap() {
+        "Preceding" => Frame::Preceding(a[1].as_u64().unwrap() as u32),
+        "Following" => Frame::Following(a[1].as_u64().unwrap() as u32),
+        x => panic!("frame {x}"),
+    }
+}
+
+pub fn window(j: &J) -> WindowStatement {
+    let mut w = WindowStatement::new();
+    for c in j["calls"].as_array().unwrap() {
+        let a = c.as_array().unwrap();
+        match a[0].as_str().unwrap() {
+            "partition_by" => { w.add_partition_by(expr(&a[1])); }
+            "order_by" => { w.order_by(colref(&a[1]), order(&a[2])); }
+            "frame" => {
+                let ty = if a[1].as_str() == Some("Range") { FrameType::Range } else { FrameType::Rows };
+                let end = if a.len() > 3 && !a[3].is_null() { Some(frame(&a[3])) } else { None };
+                w.frame(ty, frame(&a[2]), end);
+            }
+            k => panic!("window call {k}"),
+        }
+    }
+    w
 }
 
 pub fn select(j: &J) -> SelectStatement {
@@ -71,12 +151,19 @@ pub fn select_call(q: &mut SelectStatement, c: &J) {
     let a = c.as_array().unwrap();
     match a[0].as_str().unwrap() {
         "distinct" => { q.distinct(); }
+        "distinct_on" => { q.distinct_on(a[1].as_array().unwrap().iter().map(colref).collect::<Vec<_>>()); }
         "column" => { q.column(colref(&a[1])); }
         "expr" => { q.expr(expr(&a[1])); }
         "expr_as" => { q.expr_as(expr(&a[1]), iden(&a[2])); }
+        "expr_window" => { q.expr_window(expr(&a[1]), window(&a[2])); }
+        "expr_window_as" => { q.expr_window_as(expr(&a[1]), window(&a[2]), iden(&a[3])); }
+        "expr_window_name" => { q.expr_window_name(expr(&a[1]), iden(&a[2])); }
+        "window" => { q.window(iden(&a[1]), window(&a[2])); }
         "from" => { q.from(tableref(&a[1])); }
         "from_subquery" => { q.from_subquery(select(&a[1]), iden(&a[2])); }
+        "from_values" => { q.from_values(a[1].as_array().unwrap().iter().map(value_tuple).collect::<Vec<_>>(), iden(&a[2])); }
         "join" => { q.join(join_type(&a[1]), tableref(&a[2]), cond(&a[3])); }
+        "join_subquery" => { q.join_subquery(join_type(&a[1]), select(&a[2]), iden(&a[3]), cond(&a[4])); }
         "and_where" => { q.and_where(expr(&a[1])); }
         "cond_where" => { q.cond_where(cond(&a[1])); }
         "group_by" => { q.group_by_col(colref(&a[1])); }
@@ -86,10 +173,16 @@ pub fn select_call(q: &mut SelectStatement, c: &J) {
         "order_by" => { q.order_by(colref(&a[1]), order(&a[2])); }
         "order_by_expr" => { q.order_by_expr(expr(&a[1]), order(&a[2])); }
         "order_by_nulls" => { q.order_by_with_nulls(colref(&a[1]), order(&a[2]), nulls(&a[3])); }
+        "order_by_expr_nulls" => { q.order_by_expr_with_nulls(expr(&a[1]), order(&a[2]), nulls(&a[3])); }
         "order_field" => { q.order_by(colref(&a[1]), Order::Field(Values(values(&a[2])))); }
+        "order_field_expr" => { q.order_by_expr(expr(&a[1]), Order::Field(Values(values(&a[2])))); }
         "limit" => { q.limit(a[1].as_u64().unwrap()); }
         "offset" => { q.offset(a[1].as_u64().unwrap()); }
         "union" => { q.union(union_type(&a[1]), select(&a[2])); }
+        "lock" => { q.lock(lock_type(&a[1])); }
+        "lock_with_behavior" => { q.lock_with_behavior(lock_type(&a[1]), lock_behavior(&a[2])); }
+        "lock_with_tables" => { q.lock_with_tables(lock_type(&a[1]), a[2].as_array().unwrap().iter().map(tableref).collect::<Vec<_>>()); }
+        "with_cte" => { q.with_cte(with_clause(&a[1])); }
         "clear_selects" => { q.clear_selects(); }
         "from_clear" => { q.from_clear(); }
         "reset_limit" => { q.reset_limit(); }
@@ -99,10 +192,201 @@ pub fn select_call(q: &mut SelectStatement, c: &J) {
     }
 }
 
+fn returning(j: &[J]) -> ReturningClause {
+    match j[0].as_str().unwrap() {
+        "returning_all" => Returning::new().all(),
+        "returning_col" => Returning::new().column(colref(&j[1])),
+        "returning_cols" => Returning::new().columns(j[1].as_array().unwrap().iter().map(colref).collect::<Vec<_>>()),
+        "returning_exprs" => Returning::new().exprs(exprs(&j[1])),
+        k => panic!("returning {k}"),
+    }
+}
+
+pub fn on_conflict(j: &J) -> OnConflict {
+    let t = &j["target"];
+    let mut oc = if t.is_null() {
+        OnConflict::new()
+    } else {
+        let a = t.as_array().unwrap();
+        match a[0].as_str().unwrap() {
+            "cols" => OnConflict::columns(idens(&a[1])),
+            "exprs" => {
+                let mut o = OnConflict::new();
+                o.exprs(exprs(&a[1]));
+                o
+            }
+            k => panic!("on conflict target {k}"),
+        }
+    };
+    for c in j["calls"].as_array().unwrap() {
+        let a = c.as_array().unwrap();
+        match a[0].as_str().unwrap() {
+            "do_nothing" => { oc.do_nothing(); }
+            "do_nothing_on" => { oc.do_nothing_on(idens(&a[1])); }
+            "update_column" => { oc.update_column(iden(&a[1])); }
+            "update_columns" => { oc.update_columns(idens(&a[1])); }
+            "value" => { oc.value(iden(&a[1]), expr(&a[2])); }
+            "target_and_where" => { oc.target_and_where(expr(&a[1])); }
+            "action_and_where" => { oc.action_and_where(expr(&a[1])); }
+            "target_cond_where" => { oc.target_cond_where(cond(&a[1])); }
+            "action_cond_where" => { oc.action_cond_where(cond(&a[1])); }
+            k => panic!("on conflict call {k}"),
+        }
+    }
+    oc
+}
+
+fn err_json(e: &sea_query::error::Error) -> J {
+    match e {
+        sea_query::error::Error::ColValNumMismatch { col_len, val_len } => json!({"err": "ColValNumMismatch", "col_len": col_len, "val_len": val_len}),
+        #[allow(unreachable_patterns)]
+        _ => json!({"err": "other"}),
+    }
+}
+
+pub fn insert(j: &J) -> InsertStatement {
+    let mut q = InsertStatement::new();
+    for c in j["calls"].as_array().unwrap() {
+        insert_call(&mut q, c);
+    }
+    q
+}
+
+pub fn insert_call(q: &mut InsertStatement, c: &J) {
+    let a = c.as_array().unwrap();
+    match a[0].as_str().unwrap() {
+        "into_table" => { q.into_table(tableref(&a[1])); }
+        "columns" => { q.columns(idens(&a[1])); }
+        "values" => {
+            let before = q.clone();
+            match q.values(exprs(&a[1])) {
+                Ok(_) => log(json!("ok")),
+                Err(e) => {
+                    let mut r = err_json(&e);
+                    r["unchanged"] = json!(*q == before);
+                    log(r)
+                }
+            }
+        }
+        "values_panic" => { q.values_panic(exprs(&a[1])); }
+        "values_from_panic" => { q.values_from_panic(a[1].as_array().unwrap().iter().map(exprs).collect::<Vec<_>>()); }
+        "select_from" => {
+            let before = q.clone();
+            match q.select_from(select(&a[1])) {
+                Ok(_) => log(json!("ok")),
+                Err(e) => {
+                    let mut r = err_json(&e);
+                    r["unchanged"] = json!(*q == before);
+                    log(r)
+                }
+            }
+        }
+        "on_conflict" => { q.on_conflict(on_conflict(&a[1])); }
+        "returning_all" | "returning_col" | "returning_cols" | "returning_exprs" => { q.returning(returning(a)); }
+        "or_default_values" => { q.or_default_values(); }
+        "or_default_values_many" => { q.or_default_values_many(a[1].as_u64().unwrap() as u32); }
+        "replace" => { q.replace(); }
+        "with_cte" => { q.with_cte(with_clause(&a[1])); }
+        k => panic!("insert call {k}"),
+    }
+}
+
+pub fn update(j: &J) -> UpdateStatement {
+    let mut q = UpdateStatement::new();
+    for c in j["calls"].as_array().unwrap() {
+        let a = c.as_array().unwrap();
+        match a[0].as_str().unwrap() {
+            "table" => { q.table(tableref(&a[1])); }
+            "from" => { q.from(tableref(&a[1])); }
+            "value" => { q.value(iden(&a[1]), expr(&a[2])); }
+            "and_where" => { q.and_where(expr(&a[1])); }
+            "cond_where" => { q.cond_where(cond(&a[1])); }
+            "order_by" => { q.order_by(colref(&a[1]), order(&a[2])); }
+            "order_by_expr" => { q.order_by_expr(expr(&a[1]), order(&a[2])); }
+            "order_by_nulls" => { q.order_by_with_nulls(colref(&a[1]), order(&a[2]), nulls(&a[3])); }
+            "order_field" => { q.order_by(colref(&a[1]), Order::Field(Values(values(&a[2])))); }
+            "limit" => { q.limit(a[1].as_u64().unwrap()); }
+            "returning_all" | "returning_col" | "returning_cols" | "returning_exprs" => { q.returning(returning(a)); }
+            "with_cte" => { q.with_cte(with_clause(&a[1])); }
+            k => panic!("update call {k}"),
+        }
+    }
+    q
+}
+
+pub fn delete(j: &J) -> DeleteStatement {
+    let mut q = DeleteStatement::new();
+    for c in j["calls"].as_array().unwrap() {
+        let a = c.as_array().unwrap();
+        match a[0].as_str().unwrap() {
+            "from_table" => { q.from_table(tableref(&a[1])); }
+            "and_where" => { q.and_where(expr(&a[1])); }
+            "cond_where" => { q.cond_where(cond(&a[1])); }
+            "order_by" => { q.order_by(colref(&a[1]), order(&a[2])); }
+            "order_by_expr" => { q.order_by_expr(expr(&a[1]), order(&a[2])); }
+            "order_by_nulls" => { q.order_by_with_nulls(colref(&a[1]), order(&a[2]), nulls(&a[3])); }
+            "order_field" => { q.order_by(colref(&a[1]), Order::Field(Values(values(&a[2])))); }
+            "limit" => { q.limit(a[1].as_u64().unwrap()); }
+            "returning_all" | "returning_col" | "returning_cols" | "returning_exprs" => { q.returning(returning(a)); }
+            "with_cte" => { q.with_cte(with_clause(&a[1])); }
+            k => panic!("delete call {k}"),
+        }
+    }
+    q
+}
+
+pub fn with_clause(j: &J) -> WithClause {
+    let mut w = WithClause::new();
+    if j["recursive"].as_bool().unwrap_or(false) {
+        w.recursive(true);
+    }
+    for c in j["ctes"].as_array().unwrap() {
+        let mut cte = CommonTableExpression::new();
+        cte.table_name(iden(&c["name"]));
+        if let Some(cols) = c["cols"].as_array() {
+            cte.columns(cols.iter().map(iden).collect::<Vec<_>>());
+        }
+        if let Some(m) = c["materialized"].as_bool() {
+            cte.materialized(m);
+        }
+        let q = &c["query"];
+        match q["k"].as_str().unwrap() {
+            "select" => { cte.query(select(q)); }
+            "insert" => { cte.query(insert(q)); }
+            "update" => { cte.query(update(q)); }
+            "delete" => { cte.query(delete(q)); }
+            k => panic!("cte query kind {k}"),
+        }
+        w.cte(cte);
+    }
+    if !j["search"].is_null() {
+        let s = &j["search"];
+        let ord = if s["order"].as_str() == Some("DEPTH") { SearchOrder::DEPTH } else { SearchOrder::BREADTH };
+        w.search(Search::new_from_order_and_expr(ord, SelectExpr { expr: expr(&s["expr"]), alias: Some(iden(&s["alias"])), window: None }));
+    }
+    if !j["cycle"].is_null() {
+        let c = &j["cycle"];
+        w.cycle(Cycle::new_from_expr_set_using(expr(&c["expr"]), iden(&c["set"]), iden(&c["using"])));
+    }
+    w
+}
+
+pub fn with_query(j: &J) -> WithQuery {
+    let w = with_clause(&j["with"]);
+    let q = &j["query"];
+    match q["k"].as_str().unwrap() {
+        "select" => w.query(select(q)),
+        "insert" => w.query(insert(q)),
+        "update" => w.query(update(q)),
+        "delete" => w.query(delete(q)),
+        k => panic!("with query kind {k}"),
+    }
+}
+
 fn render<S: QueryStatementWriter + QueryStatementBuilder>(s: &S, req: &J) -> J {
     let entry = req["entry"].as_str().unwrap_or("to_string");
     macro_rules! with_backend {
-        ($b:expr, $dynb:expr) => {
+        ($b:expr, $dynb:expr, $ph:expr) => {
             match entry {
                 "to_string" => json!({"sql": cps(&s.to_string($b))}),
                 "build" => {
@@ -113,14 +397,42 @@ fn render<S: QueryStatementWriter + QueryStatementBuilder>(s: &S, req: &J) -> J 
                     let (sql, vals) = s.build_any($dynb);
                     json!({"sql": cps(&sql), "values": vals.0.iter().map(value_json).collect::<Vec<_>>()})
                 }
+                "build_collect" => {
+                    let mut w = SqlWriterValues::new($ph.0, $ph.1);
+                    let sql = s.build_collect($b, &mut w);
+                    let (_, vals) = w.into_parts();
+                    json!({"sql": cps(&sql), "values": vals.0.iter().map(value_json).collect::<Vec<_>>()})
+                }
+                "build_collect_any" => {
+                    let mut w = SqlWriterValues::new($ph.0, $ph.1);
+                    let sql = s.build_collect_any($dynb, &mut w);
+                    let (_, vals) = w.into_parts();
+                    json!({"sql": cps(&sql), "values": vals.0.iter().map(value_json).collect::<Vec<_>>()})
+                }
+                "build_collect_into" => {
+                    let mut w = SqlWriterValues::new($ph.0, $ph.1);
+                    s.build_collect_into($b, &mut w);
+                    let (sql, vals) = w.into_parts();
+                    json!({"sql": cps(&sql), "values": vals.0.iter().map(value_json).collect::<Vec<_>>()})
+                }
+                "build_collect_any_into" => {
+                    let mut w = SqlWriterValues::new($ph.0, $ph.1);
+                    s.build_collect_any_into($dynb, &mut w);
+                    let (sql, vals) = w.into_parts();
+                    json!({"sql": cps(&sql), "values": vals.0.iter().map(value_json).collect::<Vec<_>>()})
+                }
+                "inject" => {
+                    let (sql, vals) = s.build($b);
+                    json!({"sql": cps(&inject_parameters(&sql, vals.0, $dynb)), "built": cps(&sql)})
+                }
                 e => panic!("entry {e}"),
             }
         };
     }
     match backend_of(req) {
-        "mysql" => with_backend!(MysqlQueryBuilder, &MysqlQueryBuilder),
-        "postgres" => with_backend!(PostgresQueryBuilder, &PostgresQueryBuilder),
-        "sqlite" => with_backend!(SqliteQueryBuilder, &SqliteQueryBuilder),
+        "mysql" => with_backend!(MysqlQueryBuilder, &MysqlQueryBuilder, ("?", false)),
+        "postgres" => with_backend!(PostgresQueryBuilder, &PostgresQueryBuilder, ("$", true)),
+        "sqlite" => with_backend!(SqliteQueryBuilder, &SqliteQueryBuilder, ("?", false)),
         b => panic!("backend {b}"),
     }
 }
@@ -128,12 +440,29 @@ fn render<S: QueryStatementWriter + QueryStatementBuilder>(s: &S, req: &J) -> J 
 pub fn handle(op: &str, req: &J) -> J {
     match op {
         "render" => {
+            LOG.with(|l| l.borrow_mut().clear());
+            let s = &req["stmt"];
+            let mut r = match s["k"].as_str().unwrap() {
+                "select" => render(&select(s), req),
+                "insert" => render(&insert(s), req),
+                "update" => render(&update(s), req),
+                "delete" => render(&delete(s), req),
+                "with" => render(&with_query(s), req),
+                k => panic!("statement kind {k}"),
+            };
+            r["log"] = J::Array(LOG.with(|l| l.borrow().clone()));
+            r
+        }
+        "build_only" => {
+            // run the builder calls without rendering (C10: outcomes of values()/select_from())
+            LOG.with(|l| l.borrow_mut().clear());
             let s = &req["stmt"];
             match s["k"].as_str().unwrap() {
-                "select" => render(&select(s), req),
+                "insert" => { insert(s); }
                 k => panic!("statement kind {k}"),
-            }
+            };
+            json!({"log": J::Array(LOG.with(|l| l.borrow().clone()))})
         }
-        _ => json!({"error": format!("unknown op {op}")}),
+        _ => crate::ddl::handle(op, req),
     }
 }
